@@ -104,7 +104,7 @@ ht2mjd(const unsigned int *cal, size_t nm, struct ymd_s h)
 {
 	const unsigned int i = (h.y - 1U) * 12U + (h.m - 1U) - SM(cal);
 
-	if (UNLIKELY(i + 1U >= nm)) {
+	if (UNLIKELY(i >= nm - 1U)) {
 		/* the last entry only marks the end of the last month */
 		return 0U;
 	}
@@ -221,7 +221,7 @@ __ndim_ht(const unsigned int *cal, size_t nm, unsigned int y, unsigned int m)
 /* return the number of days in (hijri) month M in (hijri) year Y. */
 	const unsigned int i = (y - 1U) * 12U + (m - 1U) - SM(cal);
 
-	if (UNLIKELY(i + 1U >= nm)) {
+	if (UNLIKELY(i >= nm - 1U)) {
 		return 0U;
 	}
 	return MT(cal)[i + 1U] - MT(cal)[i + 0U];
